@@ -102,7 +102,7 @@ def fs_frame(repo):
 
 PROP = Prop(
     'C20', 'edit_rules only removes base structures, and only those that fail the filter',
-    functions=[er.ER + ':edit_length', er.ER + ':edit_terminal_set', er.ER + ':check_regex', er.ER + ':edit_rules'],
+    functions=[er.ER + ':edit_length', er.ER + ':edit_terminal_set', er.ER + ':check_regex', er.ER + ':edit_rules', er.ER + ':_context_lengths#body'],
     lemmas=lambda: er.allmatch_mono.lemmas(),
     setup=er.install,
     effects=effects.combine(fs_frame, effects.state_frame_for('C20', ['edit_rules.py'])),
@@ -124,9 +124,11 @@ PROP = Prop(
         'exceptional exits (IOError / OSError) are unconstrained',
         'A-SPLIT-CONCAT: that the output of one filter is again a text whose non-empty lines have two TAB-separated fields is a precondition of edit_rules (fields_wf of the four '
         'candidate intermediate texts), true of rebuilt() lines but not derivable under the split abstraction; validated by C20.bounded.cli',
-        '_create_copy is trusted at the call site (A-COPYTREE: the copy is a byte copy of the source and nothing else changes); its body is decided by the AST frame. '
-        '_context_lengths is trusted as a function (lo <= hi) of the rule directory at call time: os.listdir / nested file iteration are outside the subset; a memoising decorator '
-        'on it is refused by the engine and reported by the state frame',
+        '_create_copy is trusted at the call site (A-COPYTREE: the copy is a byte copy of the source and nothing else changes); its body is decided by the AST frame',
+        '_context_lengths: its body is verified (contract #body: the result is (min, max) of the list of len(text before the last TAB) over every TAB-containing line of every file of '
+        "<rule_dir>/Context, (1, 1) when that list is empty) with os.path.isdir / os.listdir / '\\t' in s / rsplit('\\t', 1)[0] / min / max as uninterpreted functions of their arguments; "
+        'that min(l) <= every element <= max(l) is the library meaning of min / max, not derived.  At the call site in edit_rules() it is summarised as a function (lo <= hi) of the rule '
+        'directory at call time; a memoising decorator on it is refused by the engine and reported by the state frame',
         'the frame does not see writes through aliases of open/shutil or through imported helpers (edit_rules.py imports none of the repository modules)',
     ],
     explanation='Deductive (all grammars, all parameters, regex engine abstracted): edit_length, edit_terminal_set and check_regex each return exactly the concatenation, in order, '
